@@ -326,3 +326,87 @@ Proof.
                  | apply Forall_nil | apply Forall_cons; cbn [fst snd] | split ]. }
   split; [exact R|]. rewrite <- (app_nil_r (encode _)). apply cbor_roundtrip. exact R.
 Qed.
+
+(** ** indefinite lengths *)
+(** the first byte of a header of major type 0..6 is not the break byte *)
+Lemma head_first major arg : 0 <= major <= 6 -> 0 <= arg -> exists b r, head major arg = b :: r /\ bz b <> 255.
+Proof.
+  intros Hm Ha. unfold head.
+  destruct (Z.leb_spec arg 23); [eexists; eexists; split; [reflexivity|rewrite bz_zb by lia; lia]|].
+  destruct (Z.leb_spec arg 255); [eexists; eexists; split; [reflexivity|rewrite bz_zb by lia; lia]|].
+  destruct (Z.leb_spec arg 65535); [eexists; eexists; split; [reflexivity|rewrite bz_zb by lia; lia]|].
+  destruct (Z.leb_spec arg 4294967295); eexists; eexists; (split; [reflexivity|rewrite bz_zb by lia; lia]).
+Qed.
+
+Lemma app_first (a : bytes) b r t : a = b :: r -> a ++ t = b :: (r ++ t).
+Proof. intros ->. reflexivity. Qed.
+
+Lemma encode_first n v : exists b r, encode_f (S n) v = b :: r /\ bz b <> 255.
+Proof.
+  destruct v as [| [] | x | s | s | a | o]; cbn [encode_f].
+  - eexists; eexists; split; [reflexivity|vm_compute; discriminate].
+  - eexists; eexists; split; [reflexivity|vm_compute; discriminate].
+  - eexists; eexists; split; [reflexivity|vm_compute; discriminate].
+  - destruct x as [i|i|f|s]; cbn [enc_num].
+    + destruct (Z.leb_spec 0 i); [apply head_first; lia|apply head_first; lia].
+    + destruct (0 <=? i); eexists; eexists; (split; [reflexivity|vm_compute; discriminate]).
+    + unfold enc_float. destruct (short_float 15 10 f); [|destruct (short_float 127 23 f)]; eexists; eexists; (split; [reflexivity|vm_compute; discriminate]).
+    + unfold enc_float. destruct (short_float 15 10 _); [|destruct (short_float 127 23 _)]; eexists; eexists; (split; [reflexivity|vm_compute; discriminate]).
+  - destruct (head_first 2 (Z.of_nat (length s)) ltac:(lia) ltac:(lia)) as (b & r & E & Hb). exists b. eexists. split; [apply app_first; exact E|exact Hb].
+  - destruct (head_first 3 (Z.of_nat (length (to_lossy s))) ltac:(lia) ltac:(lia)) as (b & r & E & Hb). exists b. eexists. split; [apply app_first; exact E|exact Hb].
+  - destruct (head_first 4 (Z.of_nat (length a)) ltac:(lia) ltac:(lia)) as (b & r & E & Hb). exists b. eexists. split; [apply app_first; exact E|exact Hb].
+  - destruct (head_first 5 (Z.of_nat (length o)) ltac:(lia) ltac:(lia)) as (b & r & E & Hb). exists b. eexists. split; [apply app_first; exact E|exact Hb].
+Qed.
+
+(** items up to a break *)
+Lemma items_break_ok (p : bytes -> dres val) n : forall l k acc rest,
+  (forall x, In x l -> forall r, p (encode_f (S n) x ++ r) = DOk x r) -> (length l < k)%nat ->
+  items_break p k (flat_map (encode_f (S n)) l ++ zb 255 :: rest) acc = DOk (rev acc ++ l) rest.
+Proof.
+  induction l as [|x l IH]; intros k acc rest Hp Hk.
+  - destruct k; [cbn [length] in Hk; lia|]. cbn [flat_map app items_break]. change (bz (zb 255)) with 255. cbn [Z.eqb Pos.eqb]. rewrite app_nil_r. reflexivity.
+  - destruct k; [lia|]. cbn [flat_map]. rewrite <- app_assoc.
+    destruct (encode_first n x) as (b & r & E & Hb).
+    cbn [items_break]. rewrite (app_first _ b r _ E). destruct (Z.eqb_spec (bz b) 255); [contradiction|].
+    rewrite <- (app_first _ b r _ E). rewrite (Hp x (or_introl eq_refl)).
+    rewrite IH; [|intros y Hy; apply Hp; right; exact Hy|cbn [length] in Hk; lia].
+    cbn [rev]. rewrite <- app_assoc. reflexivity.
+Qed.
+
+(** the fuel of the writer is irrelevant once it exceeds the nesting depth *)
+Lemma flat_map_ext_in {A B} (f g : A -> list B) l : (forall x, In x l -> f x = g x) -> flat_map f l = flat_map g l.
+Proof. induction l as [|x l IH]; intros H; [reflexivity|]. cbn [flat_map]. rewrite (H x (or_introl eq_refl)), IH; [reflexivity|]. intros y Hy. apply H. right. exact Hy. Qed.
+
+Lemma encode_fuel : forall n m v, (depth v < n)%nat -> (depth v < m)%nat -> encode_f n v = encode_f m v.
+Proof.
+  induction n as [|n IH]; intros m v Hn Hm; [lia|]. destruct m as [|m]; [lia|].
+  destruct v as [| b | x | s | s | a | o]; try reflexivity; cbn [encode_f]; f_equal.
+  - apply flat_map_ext_in. intros x Hx. pose proof (depth_in_arr x a Hx). apply IH; lia.
+  - apply flat_map_ext_in. intros [k y] Hx. destruct (depth_in_obj k y o Hx). cbn [fst snd]. rewrite (IH m k), (IH m y) by lia. reflexivity.
+Qed.
+
+Lemma in_flat_map_len {A B} (f : A -> list B) l x : In x l -> (length (f x) <= length (flat_map f l))%nat.
+Proof. induction l as [|y l IH]; [intros []|]. cbn [flat_map]. rewrite app_length. intros [->|H]; [lia|specialize (IH H); lia]. Qed.
+
+(** an array written with indefinite length (0x9f items 0xff), as other encoders may write it, is read as the same array *)
+Theorem indefinite_array a rest : Forall cb a ->
+  parse_one (zb 159 :: flat_map encode a ++ zb 255 :: rest) = DOk (Arr a) rest.
+Proof.
+  intros Ha. unfold parse_one.
+  set (N := depth (Arr a)).
+  assert (E : flat_map encode a = flat_map (encode_f (S N)) a).
+  { apply flat_map_ext_in. intros x Hx. unfold encode. pose proof (depth_in_arr x a Hx). apply encode_fuel; unfold N; lia. }
+  rewrite E. change (length (zb 159 :: flat_map (encode_f (S N)) a ++ zb 255 :: rest)) with (S (length (flat_map (encode_f (S N)) a ++ zb 255 :: rest))).
+  set (fuel := S (length (flat_map (encode_f (S N)) a ++ zb 255 :: rest))). cbn [parse].
+  change (title (zb 159 :: flat_map (encode_f (S N)) a ++ zb 255 :: rest))
+    with (DOk (4, @None Z, 0%nat) (flat_map (encode_f (S N)) a ++ zb 255 :: rest)).
+  cbn [Z.eqb Pos.eqb].
+  rewrite (items_break_ok _ N a); [reflexivity| |].
+  - rewrite Forall_forall in Ha. intros x Hx r. pose proof (depth_in_arr x a Hx) as Dx.
+    apply roundtrip_f; [unfold N; lia|apply Ha; exact Hx|].
+    assert (L : (depth x <= length (flat_map (encode_f (S N)) a))%nat).
+    { pose proof (depth_lt_encode (S N) x ltac:(unfold N; lia)) as D1.
+      pose proof (in_flat_map_len (encode_f (S N)) a x Hx). lia. }
+    unfold fuel. rewrite app_length. lia.
+  - rewrite app_length. pose proof (flat_map_count (encode_f (S N)) a (fun x _ => encode_nonempty N x)). cbn [length]. lia.
+Qed.
